@@ -1,5 +1,5 @@
 From Coq Require Import List Arith Bool.
-From Wire Require Import Sets Acyclic Solve Model ModelThms.
+From Wire Require Import Sets Acyclic Solve Names Front Exec Model Emit ModelThms.
 Import ListNotations.
 
 (* The property theorems.  This file contains nothing but statements closed by [exact lemma] and the
@@ -33,3 +33,90 @@ Print Assumptions C07_terminates.
 Theorem C07_machine_refines_dfs : forall succ f, Acyclic.P succ f.
 Proof. exact Acyclic.sim. Qed.
 Print Assumptions C07_machine_refines_dfs.
+
+(* ------------------------------------------------------------------ C05 *)
+(* Never picks: if processNewSet (nested sets first, then buildProviderMap's three phases with early returns,
+   then the cycle check) accepts, then the flattened closure -- injector parameters, everything every nested
+   set provides (a set reached twice counts twice), both output types of struct providers and pointer-form
+   fields, values, bindings -- lists every provided type exactly once, and the map's keys are that list. *)
+Theorem C05_never_picks : forall tyorder args s pm,
+  process_set tyorder args s = inl pm ->
+  keys pm = Sets.provided (to_core args s) /\ NoDup (Sets.provided (to_core args s)) /\ verify tyorder pm = [].
+Proof. exact process_set_one_source. Qed.
+Print Assumptions C05_never_picks.
+
+Theorem C05_closure_spelled_out : forall args id imports provs sprovs vals flds binds,
+  Sets.provided (to_core args (RSet id imports provs sprovs vals flds binds)) =
+  map fst (arg_entries 0 args) ++ flat_map (fun x => Sets.provided (to_core [] x)) imports ++
+  map fst (direct_entries (all_provs provs sprovs) vals flds) ++ map bd_iface binds.
+Proof. exact provided_to_core. Qed.
+Print Assumptions C05_closure_spelled_out.
+
+(* every conflict one phase reports names a key that really occurs twice *)
+Theorem C05_conflict_is_real : forall (A : Type) (ip bp : nat -> A -> A) (es : list (nat * A)) (pm pm' : pmap A) errs errs',
+  insert_all es pm errs = (pm', errs') ->
+  forall e, In e errs' -> In e errs \/ exists k, e = SMulti k /\ In k (map fst es) /\
+     (In k (keys pm) \/ exists l1 l2 l3, map fst es = l1 ++ k :: l2 ++ k :: l3).
+Proof. exact insert_all_err_named. Qed.
+Print Assumptions C05_conflict_is_real.
+
+(* ------------------------------------------------------------------ C11 (set level) *)
+Theorem C11_colocated : forall tyorder args id imports provs sprovs vals flds binds pm,
+  process_set tyorder args (RSet id imports provs sprovs vals flds binds) = inl pm ->
+  forall b, In b binds -> In (bd_conc b) (keys pm).
+Proof. exact process_set_colocated. Qed.
+Print Assumptions C11_colocated.
+
+(* ------------------------------------------------------------------ C10 (one phase) *)
+(* a phase of buildProviderMap accepts a permuted entry list iff it accepts the original, with the same map *)
+Theorem C10_phase_order_independent : forall (A : Type) (ip bp : nat -> A -> A) (es es' : list (nat * A)) (pm : pmap A),
+  Permutation.Permutation es es' -> NoDup (keys pm) ->
+  forall pm1, insert_all es pm [] = (pm1, []) ->
+  exists pm2, insert_all es' pm [] = (pm2, []) /\ map_eq A pm1 pm2.
+Proof. exact insert_all_perm. Qed.
+Print Assumptions C10_phase_order_independent.
+
+(* ------------------------------------------------------------------ C09 *)
+Theorem C09_results : forall rs c e, func_output rs = FoOk c e <-> legal_results rs c e.
+Proof. exact func_output_spec. Qed.
+Print Assumptions C09_results.
+
+Theorem C09_rejects : forall rs,
+  (forall c e, func_output rs <> FoOk c e) <->
+  (rs = [] \/ 4 <= List.length rs \/
+   (exists a b, rs = [a; b] /\ is_error b = false /\ is_cleanup b = false) \/
+   (exists a b c, rs = [a; b; c] /\ (is_cleanup b = false \/ is_error c = false))).
+Proof. exact func_output_rejects. Qed.
+Print Assumptions C09_rejects.
+
+Theorem C09_identical_types_rejected : forall l, first_dup l [] = None <-> NoDup l.
+Proof. exact dup_check_iff. Qed.
+Print Assumptions C09_identical_types_rejected.
+
+(* ------------------------------------------------------------------ C03 / C04 *)
+(* for every plan and every failure oracle: calls up to the first failing step, then the cleanups of the earlier
+   cleanup-returning steps in reverse, then that step's error; nothing later runs, its own cleanup never runs *)
+Theorem C03_failure : forall fails plan sigc pre s,
+  split_fail fails plan = (pre, Some s) ->
+  run_code fails (Exec.emit plan sigc) =
+    (map ECall (map p_id pre) ++ [ECall (p_id s)]
+       ++ map ECleanup (rev (cleanup_owners pre)) ++ [EReturnErr (p_id s)], []).
+Proof. exact Exec.C03_failure. Qed.
+Print Assumptions C03_failure.
+
+Theorem C04_success : forall fails plan pre,
+  split_fail fails plan = (pre, None) ->
+  run_code fails (Exec.emit plan true) =
+    (map ECall (map p_id plan) ++ [EReturnOk], map ECleanup (rev (cleanup_owners plan))).
+Proof. exact Exec.C04_success. Qed.
+Print Assumptions C04_success.
+
+(* ------------------------------------------------------------------ C14 *)
+(* disambiguate terminates (fuel |bad|+1 suffices for any finite collision set) and returns a name that is
+   no keyword and does not collide *)
+Theorem C14_disambiguate_fresh : forall (is_kw collides : String.string -> bool) (bad : list String.string),
+  (forall s, ok is_kw collides s = false -> In s bad) ->
+  forall name, exists r, disambiguate is_kw collides (S (List.length bad)) name = Some r /\
+                         is_kw r = false /\ collides r = false.
+Proof. exact disambiguate_fresh. Qed.
+Print Assumptions C14_disambiguate_fresh.
